@@ -62,6 +62,14 @@ def gen_case(rng: random.Random, tier: str):
                             bottom_detuning=None, total_bottom_detuning=None)]
     reg = seqgen.gen_register(rng)
     n = len(reg["ids"])
+    computed = rng.random() < 0.5
+    if computed:
+        # centred / computed layouts: coordinates of small magnitude that are not
+        # multiples of 1e-6 um (the detuning map stores traps rounded to 6
+        # decimals), some exactly 0, 1e-7 offsets
+        shift = rng.choice([0.0, 5.0 * (n - 1), 10.0 * rng.randrange(n)])
+        fr = [0.0, 1 / 6, -1 / 6, 1 / 7, 2 / 7, -3 / 7, 1 / 3, -1 / 3, 1e-7, 3e-7, -2e-7, 4.4e-7, 0.25, 0.4999997]
+        reg["coords"] = [[10.0 * i - shift + rng.choice(fr), rng.choice(fr)] for i in range(n)]
     maps = []
     for _ in range(2):
         k = n if rng.random() < 0.6 else rng.randint(1, n)  # a prefix: the other atoms have no trap in the map
@@ -75,6 +83,16 @@ def gen_case(rng: random.Random, tier: str):
         warnings.simplefilter("ignore")
         ops = seqgen.gen_ops(rng, case, n_ops, 0.05, 0.02, focus=focus)
     ops = [o for o in ops if not o["op"].startswith("q_") and o["op"] != "estimate"]
+    if computed and not xy and rng.random() < 0.6:
+        # make sure a DMM with non-zero detuning acts on those atoms
+        if not dev["dmms"]:
+            dev["dmms"] = [dict(clock_period=1, min_duration=1, max_duration=10**8, mod_bandwidth=None,
+                                bottom_detuning=None, total_bottom_detuning=None)]
+        pre = [dict(op="config_detmap", map=rng.randrange(2), dmm_id="dmm_0"),
+               dict(op="add_dmm", wf=rng.choice([dict(k="const", d=64, v=-1.0), dict(k="ramp", d=64, a=-0.5, b=-4.0)]),
+                    channel="dmm_0", protocol=1)]
+        pos = rng.choice([0, 0, 1, 2])
+        ops = ops[:pos] + pre + ops[pos:]
     if xy and dev["slm"] and rng.random() < 0.5:
         pre = straddle_prelude(rng, dev, reg)
         if pre:
@@ -131,10 +149,12 @@ def run_case(case):
     info = dict(user_pulses=set(), dmm_weights={})
     ids = case["register"]["ids"]
 
-    def hook(i, op, seq, ok):
+    def hook(i, op, seq, ok, maps):
         for name, cs in seq._schedule.items():
             if isinstance(cs, _DMMSchedule) and name not in info["dmm_weights"]:
-                if op["op"] == "config_detmap":
+                # (a config_detuning_map can also trigger the pending SLM-mask DMM:
+                # tell the two apart by the map object the call was given)
+                if op["op"] == "config_detmap" and 0 <= op["map"] < len(maps) and cs.detuning_map is maps[op["map"]]:
                     m = case["maps"][op["map"]]
                     info["dmm_weights"][name] = {q: (float(m[j]) if j < len(m) else 0.0) for j, q in enumerate(ids)}
                 else:  # the DMM that implements the SLM mask
